@@ -18,7 +18,7 @@ for d in seeded/${1}*/; do
     [ -n "$o" ] && hit=1
     echo "$o" | grep -v "no-failing-input-found" | grep -q "^VIOLATION" && inp=1
   done
-  git -C /repo checkout -- .
+  git -C /repo checkout -- . ; git -C /repo clean -fdq
   if [ $hit = 1 ]; then if [ $inp = 1 ]; then echo "$id: caught (failing input replayed)"; else echo "$id: caught (no input)"; fi; else echo "$id: NOT CAUGHT"; miss=1; fi
 done
 cp -a "$sav"/. /verif/evidence/; rm -rf "$sav"
